@@ -46,6 +46,9 @@ func (c *Ctx) heapInit(name, sort string) string {
 	n := "H0$" + name
 	c.declConst(n, sort)
 	c.heap0[name] = q(n)
+	if name != allocHeap {
+		c.frontier[q(n)] = c.heapInit(allocHeap, "Int")
+	}
 	return q(n)
 }
 
@@ -59,6 +62,7 @@ func (c *Ctx) heapSet(st *State, name, term string) {
 	c.declConst(v, sort)
 	c.assert(eq(q(v), term))
 	st.H[name] = q(v)
+	c.frontier[q(v)] = c.allocTerm(st)
 }
 
 func (c *Ctx) heapHavoc(st *State, name string) string {
@@ -69,6 +73,7 @@ func (c *Ctx) heapHavoc(st *State, name string) string {
 	v := c.fresh("Hv$" + name)
 	c.declConst(v, sort)
 	st.H[name] = q(v)
+	c.frontier[q(v)] = "" // unknown: filled by the caller's current frontier
 	return q(v)
 }
 
@@ -103,6 +108,7 @@ func (c *Ctx) mergeStates(guards []string, sts []*State) *State {
 	}
 	sort.Strings(ks)
 	out := &State{H: map[string]string{}}
+	var merged []string
 	for _, k := range ks {
 		var terms []string
 		same := true
@@ -136,6 +142,10 @@ func (c *Ctx) mergeStates(guards []string, sts []*State) *State {
 		c.declConst(v, c.heapSort[k])
 		c.assert(eq(q(v), t))
 		out.H[k] = q(v)
+		merged = append(merged, q(v))
+	}
+	for _, m := range merged {
+		c.frontier[m] = c.allocTerm(out)
 	}
 	return out
 }
